@@ -393,7 +393,8 @@ def rule_arg_guard(ctx, prog, chk):
 def analyse(ctx, prog, chk):
     chk.used_program(prog)
     return {"gen": rule_gen_post(ctx, prog, chk), "mxp": rule_mxp_sib(ctx, prog, chk), "arg": rule_arg_guard(ctx, prog, chk),
-            "pipe": rule_prime_pipe(ctx, prog, chk)}
+            "pipe": rule_prime_pipe(ctx, prog, chk),
+            "bits": __import__("relic_sa.expsib", fromlist=["x"]).rule_loop_bits(ctx, prog, chk, [fn for fn in prog.all if re.match(r"^bn_mxp(_\w+)?$", base(fn)) and (fn.rfile.startswith("src/bn/") or "selftest" in fn.file)])}
 
 
 def selfcheck(ctx, prog, chk):
@@ -405,4 +406,5 @@ def run(ctx, chk):
     chk.floor("GEN-POST", "generator obligations", c["gen"], 5)
     chk.floor("MXP-SIB", "exponentiation siblings (2 obligations each)", c["mxp"], 6)
     chk.floor("ARG-GUARD", "guard obligations", c["arg"], 4)
+    chk.floor("LOOP-BITS", "bit scans of exponents", c["bits"], 2)
     chk.floor("PRIME-PIPE", "accepting statements of bn_is_prime", c["pipe"], 1)
